@@ -11,6 +11,8 @@ import (
 	"time"
 
 	config2 "github.com/openGemini/openGemini/lib/config"
+	"github.com/openGemini/openGemini/lib/errno"
+	"github.com/openGemini/openGemini/lib/logger"
 	"github.com/openGemini/openGemini/lib/metaclient"
 	"github.com/openGemini/openGemini/lib/syscontrol"
 	"github.com/openGemini/openGemini/lib/util/lifted/influx/auth"
@@ -18,6 +20,7 @@ import (
 	"github.com/openGemini/openGemini/lib/util/lifted/influx/httpd/config"
 	meta2 "github.com/openGemini/openGemini/lib/util/lifted/influx/meta"
 	"github.com/openGemini/openGemini/lib/util/lifted/vm/protoparser/influx"
+	"github.com/openGemini/openGemini/services/runtimecfg"
 	"github.com/pingcap/failpoint"
 )
 
@@ -28,9 +31,10 @@ type cfgSpec struct {
 	logKeeper bool // product type logkeeper: AddLogstreamAPIRoutes
 	flux      bool // flux-enabled
 	pprof     bool // pprof-enabled
+	ext       bool // runtime-config enabled: app/ts-sql registers GET /runtime_config on the handler
 }
 
-func (c cfgSpec) op() string { return "cfg=" + b01(c.logKeeper) + b01(c.flux) + b01(c.pprof) }
+func (c cfgSpec) op() string { return "cfg=" + b01(c.logKeeper) + b01(c.flux) + b01(c.pprof) + b01(c.ext) }
 
 // env is one in-process server front end: the real httpd.Handler over the real
 // metaclient.Client (authentication, privileges) with recording doubles behind it.
@@ -39,15 +43,17 @@ type env struct {
 	cfg    cfgSpec
 	h      *httpd.Handler
 	client *metaclient.Client
+	data   *meta2.Data
 	rec    *recorder
 	// probe route (auth ops): what the real `authenticate` handed to the wrapped handler
 	probeCalls []string
+	anonPass   map[string]bool // "METHOD path" answered a request without credentials
 }
 
 const failpointName = "verif-c19-anonymous-probe"
 
 func newEnv(w *world, cfg cfgSpec, withProbe bool) *env {
-	e := &env{w: w, cfg: cfg, rec: &recorder{}}
+	e := &env{w: w, cfg: cfg, rec: &recorder{}, anonPass: map[string]bool{}}
 	c := config.NewConfig()
 	c.AuthEnabled = w.auth
 	c.SharedSecret = w.secret
@@ -62,7 +68,8 @@ func newEnv(w *world, cfg cfgSpec, withProbe bool) *env {
 	e.h = httpd.NewHandler(c)
 	config2.SetProductType("")
 	e.client = metaclient.NewClient("", false, 16)
-	e.client.SetCacheData(w.data())
+	e.data = w.data()
+	e.client.SetCacheData(e.data)
 	e.h.MetaClient = &fakeMeta{Client: e.client, rec: e.rec}
 	e.h.QueryAuthorizer = auth.NewQueryAuthorizer(e.client)
 	e.h.WriteAuthorizer = auth.NewWriteAuthorizer(e.client)
@@ -73,6 +80,16 @@ func newEnv(w *world, cfg cfgSpec, withProbe bool) *env {
 	e.h.QueryExecutor.TaskManager.Register = &recRegister{e.rec}
 	e.h.SQLConfig = config2.NewTSSql(false)
 	syscontrol.SysCtrl.MetaClient = &sysMeta{rec: e.rec}
+	if cfg.ext {
+		// what app/ts-sql/sql/server.go:NewServer does when [runtime-config] is enabled
+		rc := config2.NewRuntimeConfig()
+		rc.Enabled = true
+		svc := runtimecfg.NewService(rc, logger.NewLogger(errno.ModuleHTTP))
+		e.h.AddRoutes(httpd.Route{
+			Name: "query-runtime-config", Method: "GET", Pattern: "/runtime_config", LoggingEnabled: true,
+			HandlerFunc: runtimecfg.RuntimeConfigHandler(svc, config2.NewLimits()),
+		})
+	}
 	if withProbe {
 		e.h.AddRoutes(httpd.Route{Name: "verif-probe", Method: "GET", Pattern: "/verif-probe", LoggingEnabled: false,
 			HandlerFunc: func(rw http.ResponseWriter, r *http.Request, user meta2.User) {
@@ -88,7 +105,7 @@ func newEnv(w *world, cfg cfgSpec, withProbe bool) *env {
 }
 
 // refresh installs the world's current users/privileges (after grant / revoke).
-func (e *env) refresh() { e.client.SetCacheData(e.w.data()) }
+func (e *env) refresh() { e.data = e.w.data(); e.client.SetCacheData(e.data) }
 
 // unlock clears the failed-login log of every user (5 failures lock a user for 30 s of wall
 // clock; the lock is outside the model, so it is neutralised between requests).
@@ -146,6 +163,8 @@ func (r response) outcome() string {
 		return "401"
 	case r.status == 403:
 		return "403"
+	case strings.Contains(r.body, "error authorizing query"):
+		return "az" // authorization denial reported through a generic error path (log queries: 400/500)
 	case r.status == 404 && strings.HasPrefix(r.body, "404 page not found"):
 		return "404"
 	case r.status == 405 && r.body == "":
